@@ -155,6 +155,7 @@ func isIdent(e ast.Expr, name string) bool {
 
 type wrapperCtx struct {
 	f        *file
+	all      []*file // the files of the package (helpers are looked up there)
 	client   string // parameter of type *hds.Client
 	next     string // parameter of type http.HandlerFunc / http.Handler (middleware)
 	req      string // *http.Request parameter of the returned closure
@@ -248,6 +249,144 @@ func (c *wrapperCtx) isPureRequestRead(e ast.Expr) bool {
 	return false
 }
 
+// ---- verification helpers
+// A package-level function H(client *hds.Client, r *http.Request) error (parameters in any order) that does nothing but
+// read the token from the request, verify it with the client, optionally log the error, and return it:
+//    token := GetUserTokenFromHTTPRequest(r)
+//    (A) if err := client.VerifyUserAuth(token); err != nil { log…; return err }; return nil
+//    (B) err := client.VerifyUserAuth(token); [if err != nil { log… }]; return err
+//    (C) return client.VerifyUserAuth(token)
+// A wrapper that calls it is translated as if the helper were written out in place. Anything else is not a helper
+// (the call site becomes SOther: fail closed).
+type verifyHelper struct {
+	clientIdx, reqIdx int
+	logs              bool
+}
+
+func (f *file) verifyHelperOf(files []*file, name string) *verifyHelper {
+	for _, g := range files {
+		for _, d := range g.ast.Decls {
+			fd, ok := d.(*ast.FuncDecl)
+			if !ok || fd.Recv != nil || fd.Name.Name != name || fd.Body == nil || fd.Type.Params == nil {
+				continue
+			}
+			if fd.Type.Results == nil || len(fd.Type.Results.List) != 1 || !isIdent(fd.Type.Results.List[0].Type, "error") {
+				return nil
+			}
+			c := &wrapperCtx{f: g}
+			h := &verifyHelper{clientIdx: -1, reqIdx: -1}
+			idx := 0
+			for _, fld := range fd.Type.Params.List {
+				for _, nm := range fld.Names {
+					if c.isStarSel(pathCommonHDS, "Client")(fld.Type) {
+						c.client, h.clientIdx = nm.Name, idx
+					} else if c.isStarSel(pathNetHTTP, "Request")(fld.Type) {
+						c.req, h.reqIdx = nm.Name, idx
+					} else {
+						return nil
+					}
+					idx++
+				}
+			}
+			if idx != 2 || h.clientIdx < 0 || h.reqIdx < 0 {
+				return nil
+			}
+			b := fd.Body.List
+			if len(b) < 2 || c.stmt(b[0], 0) != "SAssignToken" {
+				return nil
+			}
+			isVerify := func(e ast.Expr) bool {
+				call, ok := e.(*ast.CallExpr)
+				if !ok || len(call.Args) != 1 || !isIdent(call.Args[0], c.tokenVar) {
+					return false
+				}
+				sel, ok := call.Fun.(*ast.SelectorExpr)
+				return ok && sel.Sel.Name == fnVerifyUserAuth && isIdent(sel.X, c.client)
+			}
+			onlyLogs := func(list []ast.Stmt) bool {
+				for _, st := range list {
+					if c.stmt(st, 1) != "SLog" {
+						return false
+					}
+				}
+				return true
+			}
+			rest := b[1:]
+			// (C)
+			if len(rest) == 1 {
+				if r, ok := rest[0].(*ast.ReturnStmt); ok && len(r.Results) == 1 && isVerify(r.Results[0]) {
+					return h
+				}
+			}
+			// (A)
+			if len(rest) == 2 && c.stmt(rest[1], 0) == "SReturnNil" {
+				t := c.stmt(rest[0], 0)
+				if strings.HasPrefix(t, "SIfVerifyErr [") && strings.HasSuffix(t, "SReturnErr]") {
+					inner := strings.TrimSuffix(strings.TrimPrefix(t, "SIfVerifyErr ["), "SReturnErr]")
+					inner = strings.TrimSuffix(strings.TrimSpace(inner), ";")
+					ok := true
+					for _, x := range strings.Split(inner, ";") {
+						if x = strings.TrimSpace(x); x != "" && x != "SLog" {
+							ok = false
+						}
+					}
+					if ok {
+						h.logs = strings.Contains(inner, "SLog")
+						return h
+					}
+				}
+				return nil
+			}
+			// (B)
+			as, ok := rest[0].(*ast.AssignStmt)
+			if !ok || as.Tok != token.DEFINE || len(as.Lhs) != 1 || len(as.Rhs) != 1 || !isVerify(as.Rhs[0]) {
+				return nil
+			}
+			ev, ok := as.Lhs[0].(*ast.Ident)
+			if !ok {
+				return nil
+			}
+			rest = rest[1:]
+			if len(rest) == 2 {
+				is, ok := rest[0].(*ast.IfStmt)
+				if !ok || is.Init != nil || is.Else != nil {
+					return nil
+				}
+				cond, ok := is.Cond.(*ast.BinaryExpr)
+				if !ok || cond.Op != token.NEQ || !isIdent(cond.X, ev.Name) || !isIdent(cond.Y, "nil") || !onlyLogs(is.Body.List) {
+					return nil
+				}
+				h.logs = len(is.Body.List) > 0
+				rest = rest[1:]
+			}
+			if len(rest) == 1 {
+				if r, ok := rest[0].(*ast.ReturnStmt); ok && len(r.Results) == 1 && isIdent(r.Results[0], ev.Name) {
+					return h
+				}
+			}
+			return nil
+		}
+	}
+	return nil
+}
+
+// helperCall: is e a call H(client, r) of a verification helper with this wrapper's own client and request?
+func (c *wrapperCtx) helperCall(e ast.Expr) *verifyHelper {
+	call, ok := e.(*ast.CallExpr)
+	if !ok || len(call.Args) != 2 || c.tokenVar != "" {
+		return nil
+	}
+	id, ok := call.Fun.(*ast.Ident)
+	if !ok {
+		return nil
+	}
+	h := c.f.verifyHelperOf(c.all, id.Name)
+	if h == nil || !isIdent(call.Args[h.clientIdx], c.client) || !isIdent(call.Args[h.reqIdx], c.req) {
+		return nil
+	}
+	return h
+}
+
 func (c *wrapperCtx) stmts(list []ast.Stmt, depth int) []string {
 	var out []string
 	for _, s := range list {
@@ -287,6 +426,21 @@ func (c *wrapperCtx) stmt(s ast.Stmt, depth int) string {
 		ev, ok := as.Lhs[0].(*ast.Ident)
 		if !ok {
 			return other()
+		}
+		if h := c.helperCall(as.Rhs[0]); h != nil {
+			// if err := H(client, r); err != nil { … }  ==  token := …; if err := client.Verify(token); err != nil { [log;] … }
+			cond, ok := x.Cond.(*ast.BinaryExpr)
+			if !ok || cond.Op != token.NEQ || !isIdent(cond.X, ev.Name) || !isIdent(cond.Y, "nil") {
+				return other()
+			}
+			c.tokenVar = "<helper>"
+			c.errVar = ev.Name
+			body := c.stmts(x.Body.List, depth+1)
+			c.errVar = ""
+			if h.logs {
+				body = append([]string{"SLog"}, body...)
+			}
+			return "SAssignToken; SIfVerifyErr [" + strings.Join(body, "; ") + "]"
 		}
 		call, ok := as.Rhs[0].(*ast.CallExpr)
 		if !ok || len(call.Args) != 1 || !isIdent(call.Args[0], c.tokenVar) {
@@ -344,6 +498,16 @@ func (c *wrapperCtx) stmt(s ast.Stmt, depth int) string {
 		case 0:
 			return "SReturn"
 		case 1:
+			if depth == 0 {
+				if h := c.helperCall(x.Results[0]); h != nil {
+					// return H(client, r)  ==  token := …; if err := client.Verify(token); err != nil { [log;] return err }; return nil
+					c.tokenVar = "<helper>"
+					if h.logs {
+						return "SAssignToken; SIfVerifyErr [SLog; SReturnErr]; SReturnNil"
+					}
+					return "SAssignToken; SIfVerifyErr [SReturnErr]; SReturnNil"
+				}
+			}
 			if c.errVar != "" && isIdent(x.Results[0], c.errVar) {
 				return "SReturnErr"
 			}
@@ -364,7 +528,7 @@ func wrapperBody(files []*file, name string, middleware bool) string {
 			if !ok || fd.Recv != nil || fd.Name.Name != name || fd.Body == nil {
 				continue
 			}
-			c := &wrapperCtx{f: f}
+			c := &wrapperCtx{f: f, all: files}
 			c.client = c.paramOfType(fd.Type.Params, c.isStarSel(pathCommonHDS, "Client"))
 			if middleware {
 				c.next = c.paramOfType(fd.Type.Params, func(e ast.Expr) bool {
